@@ -28,6 +28,7 @@ I(k) == <<"i", k>>
 S(s) == <<"s", s>>
 B(b) == <<"b", b>>
 R(n, d) == <<"r", n, d>>
+F(x) == <<"f", x>>            \* a non-finite float: "nan", "inf", "-inf" (never a valid probability, scale or rate)
 L(seq) == <<"l", seq>>
 T(seq) == <<"t", seq>>
 \* OmegaConf has no tuples: a tuple argument is stored as the list of the same elements.
